@@ -40,6 +40,7 @@ structure CCfg (P O T V : Type) where
   hasValidator : Bool := true       -- `validator != nil`
   tIsPtr : Bool := false            -- `reflect.TypeFor[T]().Kind() == reflect.Pointer`
   isStruct : Bool := false          -- `expectedType == core.ZodTypeStruct` (legacy fast paths only)
+  isNilType : Bool := false         -- `expectedType == core.ZodTypeNil`
   ptrExTakesValues : Bool := false  -- the type's `ptrExtractor` also accepts a `T` (ZodSlice: `&s`)
 
 /-- The type-specific callbacks. -/
@@ -47,7 +48,7 @@ structure CEnv (P O T V E : Type) where
   validate : List (Check P O) → V → Except E V         -- the type's validator
   firstPass : List (Check P O) → V → Option V          -- `validatePointerWithOverwrite`: `some v'` = no error and a new pointer
   checksOnDefault : List (Check P O) → V → Res V E      -- `ApplyChecks(v, checks)` on a default value (an overwrite is present)
-  checksOnNil : List (Check P O) → Res V E              -- `ApplyChecks[any](nil, filterNilChecks(checks))`
+  checksOnNil : List (Check P O) → Res V E              -- `ApplyChecks[any](nil, overwriteChecks(checks))` (Nil type: `filterNilChecks`)
   trans : T → Res V E → Res V E                         -- `internals.Transform` (never called on `err`)
   typeErr : E                                           -- `issues.CreateInvalidTypeError`
   nonOptErr : E                                         -- `issues.CreateNonOptionalError`
@@ -87,7 +88,10 @@ def pmCore (env : CEnv P O T V E) (c : CCfg P O T V) (isNil : Bool) : PM V E :=
         | none =>
           if c.i.nonOptional && !c.tIsPtr then .handled (.err env.nonOptErr)
           else if c.i.optional || c.i.nilable || c.tIsPtr then
-            (if (nilApplicable c.i c.i.checks).isEmpty then .handled .nil else .handled (env.checksOnNil c.i.checks))
+            -- /repo 7db47f1: an accepted nil only meets the overwrite checks; for the Nil type nil IS the value and every
+            -- nil-capable check runs (`filterNilChecks`)
+            (if (if c.isNilType then (nilApplicable c.i c.i.checks).isEmpty else !hasOverwrite c.i.checks)
+             then .handled .nil else .handled (env.checksOnNil c.i.checks))
           else if c.i.admitsNil then .handled .nil
           else .handled (.err env.typeErr)
 
@@ -97,8 +101,11 @@ def handleNilComplex (env : CEnv P O T V E) (c : CCfg P O T V) : Res V E :=
   | .handled r => r
   | _ => .err env.typeErr
 
-/-- `validatePointer` (after 49e6e91): the validator decides first — container-level checks and every member
-    schema; only when it accepted does an overwrite check get its pass over the pointer itself. -/
+/-- `validatePointer` (after 49e6e91, e584c0e): the validator decides first — container-level checks and every member
+    schema; only when it accepted does an overwrite check get its pass over the pointer itself (`np` when it changed the
+    pointer, else the validator's value stored through the caller's pointer). Without an overwrite nothing is stored: the
+    caller's own pointer when the validator handed back the same bits (`sameValue`), else a pointer to the validator's value.
+    `Res.ptr` carries the VALUE behind the pointer, so the last three arms are one (which pointer it is: C15). -/
 def validatePointer (env : CEnv P O T V E) (c : CCfg P O T V) (v : V) : Res V E :=
   if !c.hasValidator then .ptr v
   else
